@@ -59,11 +59,15 @@ pub fn lit(text: &str) -> Option<Rat> {
         Some((a, b)) => (a, b),
         None => (text, ""),
     };
-    let digits: String = format!("{}{}", ip, fp);
-    let sig = digits.trim_start_matches('0');
+    let all: String = format!("{}{}", ip, fp);
+    let sig = all.trim_start_matches('0');
+    // zeros at the end of the fraction are significant digits, but they do not change the value: a literal with at
+    // most 28 significant digits denotes a Decimal as soon as its fraction without them has at most 28 digits
+    let fp = fp.trim_end_matches('0');
     if sig.len() > 28 || fp.len() > 28 {
         return None;
     }
+    let digits: String = format!("{}{}", ip, fp);
     let r = Rat::new(false, Mag::from_decimal_digits(&digits), Mag::pow10(fp.len() as u32));
     match settle(r.clone(), false) {
         XV::Exact(_) => Some(r),
